@@ -144,6 +144,12 @@ impl<'a> Gen<'a> {
                 s.push_str(&format!("{mag}"));
             }
         }
+        // digits that arrive by expansion in the middle of a constant (TeX §366: expand backs up cur_val, radix and
+        // cur_order, so the constant goes on in its own radix): `"7\the\count2`
+        if self.rng.chance(1, 40) {
+            let r = self.reg("count");
+            s.push_str(&format!("\\the{r}"));
+        }
         s.push_str(self.opt_space(1, 3));
         s
     }
@@ -379,7 +385,12 @@ impl<'a> Gen<'a> {
                 format!("{k}{}", self.opt_space(1, 3))
             }
             U::Fil(n) => {
-                let k = self.mixed_case(&format!("fi{}", "l".repeat(n)));
+                let mut k = self.mixed_case(&format!("fi{}", "l".repeat(n)));
+                // TeX §454 scans every l after `fil` with scan_keyword("l"): blanks before it are skipped (`fil l` = fill)
+                if n >= 2 && self.rng.chance(1, 25) {
+                    let at = k.len() - self.rng.range_usize(1, n - 1);
+                    k.insert(at, ' ');
+                }
                 format!("{k}{}", self.opt_space(1, 3))
             }
             U::Internal => match self.rng.below(4) {
